@@ -19,7 +19,7 @@ from coqfmt import zraw, b, lst, tup, s as cstr
 
 replay = common.generic_replay
 
-IMPORTS = 'Graph PyHash Fingerprint FingerprintCGR LinearSmiles FingerprintVec MorganSmiles LinearSpell LinearSmilesFull'
+IMPORTS = 'Graph PyHash Fingerprint FingerprintCGR LinearSmiles FingerprintVec MorganSmiles LinearSpell LinearSmilesFull ChainsTrace'
 EXTRA = '''
 Import ListNotations.
 Open Scope Z_scope.
@@ -114,6 +114,13 @@ Definition lsh_model_ok (g : mol) (lo hi : Z) (chs : list path) (nbp : Z) (e : l
   strd_ok (linear_smiles_hash_model hash_ztuple_fast g chs nbp) e.
 Definition lhsmf_model_ok (g : mol) (lo hi : Z) (chs : list path) (nbp : Z) (e : list (Z * list string)) : bool :=
   sd_ok (linear_hash_smiles_fixed_model hash_ztuple_fast g chs nbp) e.
+(* intermediate states of _chains: the popleft sequence of the deque from the observed initial content q0, and the additions *)
+Definition pops_ok (g : mol) (lo hi : Z) (q0 pops : list path) : bool :=
+  option_eqb paths_eqb (chains_pops (S (List.length pops)) g hi q0) (Some pops) &&
+  match chains_seq_loop_from (S (List.length pops)) g lo hi q0 with
+  | Some r => paths_eqb (set_paths r) (set_paths (chains g lo hi))
+  | None => false
+  end.
 (* CGR containers (Model.FingerprintCGR) *)
 Definition cwf_ok (c : cgr) : bool := wf_cgr c.
 Definition cids_ok (c : cgr) (e : list (Z * Z)) : bool := dict_eqb (cgr_atom_identifiers c) e.
@@ -323,6 +330,34 @@ class RecSet(set):
         super().add(x)
 
 
+def chains_deque_trace(m, lo, hi):
+    """(initial content of the deque, sequence of popleft() results) of _chains, through a recording deque installed as the module
+    global `deque` of linear.py; None when the function returns before the loop (min_radius == max_radius == 1)"""
+    import collections
+    import chython.algorithms.fingerprints.linear as lin
+    rec = {}
+
+    class RecDeque(collections.deque):
+        def __init__(self, it=()):
+            items = list(it)
+            rec['init'] = items
+            rec['pops'] = []
+            super().__init__(items)
+
+        def popleft(self):
+            x = super().popleft()
+            rec['pops'].append(x)
+            return x
+
+    orig = lin.deque
+    lin.deque = RecDeque
+    try:
+        m._chains(lo, hi)
+    finally:
+        lin.deque = orig
+    return (rec['init'], rec['pops']) if rec else None
+
+
 def chains_sequence(m, lo, hi):
     import chython.algorithms.fingerprints.linear as lin
     lin.set = RecSet
@@ -392,6 +427,10 @@ def mol_cases(ck, tag, g, m, rng):
             ck.count('fp:skipped (too many chains)')
             continue
         a = f'{g} {zraw(lo)} {zraw(hi)}'
+        tr = chains_deque_trace(m, lo, hi)
+        if tr is not None and len(tr[1]) <= MAX_PATHS_SEQ * scale:
+            # intermediate states: the deque content at the start (set order for min_radius = 1) and every popleft()
+            add(f'pops_ok {a} {pl(tr[0])} {pl(tr[1])}', '_chains (initial deque and popleft sequence)', (lo, hi))
         seq = chains_sequence(m, lo, hi)
         if small or seq is None or len(ch) > MAX_PATHS_SEQ * scale:        # (for a larger molecule the add sequence, which determines the set, is compared instead)
             add(f'chains_ok {a} {pl(sorted(ch))}', '_chains(set)', (lo, hi))
